@@ -40,14 +40,34 @@
      prune uses it), so (1), (2), no-duplicates and the waiter invariant hold of the pool's
      parents_ready query w.r.t. the marks the pool issued (C07_pool_feeds_tracker_monotone,
      C07_pool_tracker_exact), and no tracker call of the pool panics (C07_pool_tracker_marks_never_panic).
-   ORACLE-ONLY (not theorems): WHICH marks the pool issues for which certificates / parent edges (the
-   link from certificates to marks: ready_spec over certificates, finals_star, implicitly skipped slots
-   computed by the finality tracker) and that the pool forwards the tracker's announcements as
-   ParentReady events unchanged - decided by c07_step_ok on implementation traces (Oracle/PoolRun.v)
-   and by the model/implementation correspondence. *)
+   - certificate-to-mark link (Proofs/PoolMarks.v, PoolOracleSpec.v; vocabulary Model/PoolTrace.v), for EVERY pool
+     reachable by pool_step from pool_init, ghost trace read off the observable step results (certificates of the
+     ECertCreated events = H, registrations that returned = B, waiter registrations):
+     C07_pool_ready_marks: the pool's tracker IS pt_run (tops_of trace) - a notar-fallback mark for b iff a Notar or
+     NotarFallback certificate for b is in H (a FastFinal certificate marks b only through the finalization event), a
+     skip mark for s iff a Skip certificate for s is in H, TFinalize events = exactly the events the finality tracker
+     returned for the marks of Props/C08.v (6) (the one dropped event is the empty one of a block below the
+     watermark), every prune at the watermark (roots_mono, root = first_unpruned), a wait per registration; and the
+     announcements / wake-ups of that run ARE the EParentReady / EWaiterWoken events the pool has emitted
+     (ev_prs / ev_wk of all events, in order): the pool forwards them unchanged;
+     C07_pool_parent_ready_events_level (no premise) and C07_pool_parent_ready_certificate_level_explicit_genesis (under the
+     consistency premise ft_consistent C (cert_hist H B) of Props/C08.v): (s, p) is in parents_ready(s) only if
+     ReadySpec H B s p - s starts a window, slot(p) < s, p is genesis / Notar- or NotarFallback-certified / finalized
+     (FastFinal, Final + Notar, or ancestor of such a block through registered links), every slot strictly between is
+     Skip-certified or implicitly skipped by a finalization - and, for p not below the watermark, if; every
+     EParentReady event ever emitted satisfies it and no pair is emitted twice; every wake-up carries such a parent
+     (_explicit_genesis: the same with 'no certificate / registration names a slot-0 block other than genesis' as
+     a decidable premise, independent of the clauses of ft_consistent);
+     C07_certificate_level_spec_is_executable (ready_specb) and C07_oracle_ready_spec_is_ReadySpec /
+     C07_oracle_ready_spec_eq_ready_specb: the oracle's ready_spec (Oracle/PoolRun.v) is this specification.
+   REMAINS ORACLE-ONLY: the consistency premise itself (C01's subject), the per-step timing statements at pool level
+   (they are theorems about every tracker run with a monotone root, C07_announcement_is_new_and_queryable /
+   C07_waiter_woken_exactly_by_first_parent, and the pool's tracker is such a run by C07_pool_ready_marks, but they are
+   not restated over pool steps), and the model / implementation correspondence. *)
 From Coq Require Import List NArith Bool Permutation.
-From AG Require Import Gen.Params Model.Pool Model.PoolSpec Model.TrackerSpec Proofs.TrackerProofs Proofs.ParentReadyProofs
-                       Proofs.PoolTrackerLink.
+From AG Require Import Gen.Params Model.Pool Model.PoolSpec Model.TrackerSpec Model.FinalitySpec Model.PoolTrace
+                       Oracle.PoolRun Proofs.TrackerProofs Proofs.ParentReadyProofs Proofs.PoolTrackerLink Proofs.PoolMarks
+                       Proofs.PoolOracleSpec.
 Import ListNotations.
 Open Scope N_scope.
 
@@ -184,6 +204,97 @@ Theorem C07_pool_tracker_marks_never_panic : forall e ops op,
   pt_step (p_prt p) op <> None.
 Proof. exact pool_tracker_marks_never_panic. Qed.
 
+(* ---- the certificate-to-mark link: WHICH operations the pool issues to its parent-ready tracker ---- *)
+(* every pool reachable from pool_init by any pool_step sequence; g_trace / g_events = ghost trace and emitted events
+   (Model/PoolTrace.v); tops_of runs the finality tracker along the trace: notar-fallback mark per Notar /
+   NotarFallback certificate, skip mark per Skip certificate, after every finality-tracker operation the
+   finalization event it returned and a prune at the watermark, a wait per waiter registration *)
+Theorem C07_pool_ready_marks : forall e ops,
+  let g := ghost_run e ops in
+  let H := held_certs (g_trace g) in
+  exists fevs tops,
+    trace_run ft_init (g_trace g) = Some (p_ft (g_pool g), fevs, tops) /\ tops = tops_of (g_trace g) /\
+    ft_run ft_init (fops_of (g_trace g)) = Some (p_ft (g_pool g), fevs) /\
+    pt_run tops = Some (p_prt (g_pool g), ev_prs (g_events g), ev_wk (g_events g)) /\
+    roots_mono tops = true /\ mk_root (marks_of tops) = first_unpruned (g_pool g) /\
+    (forall b, In (TNotarFb b) tops <-> has_nf_cert H b = true) /\
+    (forall s, In (TSkip s) tops <-> has_skip_cert H s = true) /\
+    (forall s, In (TWait s) tops <-> In (IWait s) (g_trace g)) /\
+    (forall ev, In (TFinalize ev) tops -> In ev fevs) /\
+    (forall ev, In ev fevs -> ev = fe_empty \/ In (TFinalize ev) tops) /\
+    (forall b, In b (mk_nf (marks_of tops)) <-> b = (0, 0) \/ has_nf_cert H b = true \/ In b (all_final_events fevs)) /\
+    (forall s, In s (mk_skip (marks_of tops)) <-> has_skip_cert H s = true \/ In s (all_skip_events fevs)).
+Proof. exact pool_ready_marks. Qed.
+
+(* no premise: the query, the ParentReady events and the wake-ups of the pool against the certificates held and the
+   finalization events its finality tracker returned *)
+Theorem C07_pool_parent_ready_events_level : forall e ops,
+  let g := ghost_run e ops in let p := g_pool g in
+  let H := held_certs (g_trace g) in
+  exists fevs, ft_run ft_init (fops_of (g_trace g)) = Some (p_ft p, fevs) /\
+    let nf b := b = (0, 0) \/ has_nf_cert H b = true \/ In b (all_final_events fevs) in
+    let sk x := has_skip_cert H x = true \/ In x (all_skip_events fevs) in
+    let spec s b := is_window_start s = true /\ fst b < s /\ nf b /\ forall x, fst b < x < s -> sk x in
+    (forall s b, In b (pt_parents_ready (p_prt p) s) -> spec s b) /\
+    (forall s b, first_unpruned p <= fst b -> spec s b -> In b (pt_parents_ready (p_prt p) s)) /\
+    (forall s, NoDup (pt_parents_ready (p_prt p) s)) /\
+    NoDup (ev_prs (g_events g)) /\
+    (forall s b, In (s, b) (ev_prs (g_events g)) -> spec s b) /\
+    (forall s b, In (EWaiterWoken s b) (g_events g) -> spec s b) /\
+    (forall s, pr_waiting (pt_get (p_prt p) s) = true -> pt_parents_ready (p_prt p) s = []).
+Proof. exact pool_parent_ready_events_level. Qed.
+
+(* C07 at certificate level, under the consistency of the certificates held (H) and links registered (B), *)
+(* the same with the genesis fact as an explicit decidable premise about H and B (no certificate and no registration
+   names a block of slot 0 other than genesis) instead of deriving it from the form of ft_consistent: this variant does
+   not depend on which clauses ft_consistent has *)
+Theorem C07_pool_parent_ready_certificate_level_explicit_genesis : forall e ops (C : slot -> option hash),
+  let g := ghost_run e ops in let p := g_pool g in
+  let H := held_certs (g_trace g) in let B := reg_links (g_trace g) in
+  ft_consistent C (cert_hist H B) = true -> slot0_genesis_only H B = true ->
+  (forall s b, In b (pt_parents_ready (p_prt p) s) -> ReadySpec H B s b) /\
+  (forall s b, first_unpruned p <= fst b -> ReadySpec H B s b -> In b (pt_parents_ready (p_prt p) s)) /\
+  (forall s, NoDup (pt_parents_ready (p_prt p) s)) /\
+  NoDup (ev_prs (g_events g)) /\
+  (forall s b, In (s, b) (ev_prs (g_events g)) -> ReadySpec H B s b) /\
+  (forall s b, In (EWaiterWoken s b) (g_events g) -> ReadySpec H B s b) /\
+  (forall s, pr_waiting (pt_get (p_prt p) s) = true -> pt_parents_ready (p_prt p) s = []).
+Proof. exact pool_parent_ready_certificate_level_explicit_genesis. Qed.
+
+Theorem C07_registered_links_point_backwards : forall e ops b par,
+  In (b, par) (reg_links (g_trace (ghost_run e ops))) -> fst par < fst b.
+Proof. exact reachable_links_lt. Qed.
+
+Theorem C07_certificate_level_spec_is_executable : forall H B s p,
+  (forall b par, In (b, par) B -> fst par < fst b) -> (ready_specb H B s p = true <-> ReadySpec H B s p).
+Proof. exact ready_specb_iff. Qed.
+
+(* the oracle's executable parent-ready specification (Oracle/PoolRun.v ready_spec) IS the certificate-level one *)
+Theorem C07_oracle_ready_spec_is_ReadySpec : forall cs blocks,
+  (forall b par, In (b, par) blocks -> fst par < fst b) ->
+  forall s b, ready_spec cs blocks s b = true <-> ReadySpec cs blocks s b.
+Proof. exact oracle_ready_spec_iff. Qed.
+
+Theorem C07_oracle_ready_spec_eq_ready_specb : forall cs blocks,
+  (forall b par, In (b, par) blocks -> fst par < fst b) ->
+  forall s b, ready_spec cs blocks s b = ready_specb cs blocks s b.
+Proof. exact oracle_ready_spec_eq. Qed.
+
+Example C07_pool_link_nonvacuous :
+  let g := ghost_run lk_epoch lk_ops in
+  let H := held_certs (g_trace g) in let B := reg_links (g_trace g) in
+  ft_consistent lk_chain (cert_hist H B) = true /\ slot0_genesis_only H B = true /\
+  p_panicked (g_pool g) = false /\
+  map (fun c => (c_slot c, c_kind c)) H =
+    [(1, CNotarFb 7); (1, CNotar 7); (1, CFastFinal 7); (3, CFinal); (2, CSkip); (3, CNotar 3); (5, CFastFinal 5);
+     (6, CSkip); (7, CSkip)] /\
+  B = [((5, 5), (3, 3)); ((3, 3), (1, 7))] /\
+  first_unpruned (g_pool g) = 5 /\ finalized_slot (g_pool g) = 5 /\
+  pt_parents_ready (p_prt (g_pool g)) 8 = [(5, 5)] /\
+  ev_prs (g_events g) = [(4, (3, 3)); (8, (5, 5))] /\ ev_wk (g_events g) = [EWaiterWoken 8 (5, 5)] /\
+  ready_specb H B 8 (5, 5) = true /\ ready_specb H B 8 (3, 3) = false.
+Proof. exact lk_example. Qed.
+
 (* ---- the hypotheses are satisfiable, the restrictions necessary ---- *)
 (* wit_pruned_ops (Proofs/ParentReadyProofs.v) = [TWait 4; TNotarFb (1,7); TSkip 3; TSkip 2; TSkip 1;
    TFinalize {final (5,9); implicitly final [(4,8)]; implicitly skipped [6;7]}; TPrune 5; TSkip 5; TWait 8;
@@ -234,3 +345,11 @@ Print Assumptions C07_pool_tracker_marks_never_panic.
 Print Assumptions C07_nonvacuous.
 Print Assumptions C07_pruned_parent_not_reported.
 Print Assumptions C07_root_regression_refuted.
+Print Assumptions C07_pool_ready_marks.
+Print Assumptions C07_pool_parent_ready_events_level.
+Print Assumptions C07_registered_links_point_backwards.
+Print Assumptions C07_certificate_level_spec_is_executable.
+Print Assumptions C07_pool_link_nonvacuous.
+Print Assumptions C07_oracle_ready_spec_is_ReadySpec.
+Print Assumptions C07_oracle_ready_spec_eq_ready_specb.
+Print Assumptions C07_pool_parent_ready_certificate_level_explicit_genesis.
